@@ -118,6 +118,37 @@ func (c *Ctx) c19Server(rel, name string) {
 		})
 	}
 	r.Floor("C19/WG/add-before-go", name+" session spawns", nGo, 1)
+	// work a session hands to another goroutine must be counted too: Drain (and then main)
+	// returns when the counted goroutines are done
+	var sessFns []*ssa.Function
+	for fn := range p.SyncReach(root) {
+		if eng.FuncPkgPath(fn) == eng.Mod+"/"+rel {
+			sessFns = append(sessFns, fn)
+		}
+	}
+	sortFuncs(sessFns)
+	detached := 0
+	for _, fn := range sessFns {
+		fn := fn
+		eng.EachInstr(fn, func(in ssa.Instruction) {
+			if _, ok := in.(*ssa.Go); !ok {
+				return
+			}
+			counted := false
+			eng.EachInstr(fn, func(x ssa.Instruction) {
+				if call, ok := x.(*ssa.Call); ok && wgCall(call.Common(), "Add", fWG) && eng.Dominates(x, in) {
+					counted = true
+				}
+			})
+			if !counted {
+				detached++
+				r.Bad("C19/WG/add-before-go", name+":detached-go@"+shortFn(fn), p.InstrPos(in), "a session starts a goroutine the server's WaitGroup does not count: the session unwinds and Drain returns while that work is still running, so shutdown can cut it off")
+			}
+		})
+	}
+	if detached == 0 {
+		r.Ok("C19/WG/add-before-go", name+":no-detached-go", p.Pos(root.Pos()), "no uncounted go statement in the %d functions a session runs", len(sessFns))
+	}
 	// every Add in the package is balanced by a deferred Done in the same function or precedes a go
 	// D2 drain
 	waits := 0
@@ -386,7 +417,64 @@ func (c *Ctx) retentionCancel(rule string) {
 	} else {
 		r.Ok(rule, "close-on-exit", p.Pos(start.Pos()), "every exit of Start closes retentionShutdown")
 	}
-	// the loop after DoScan re-checks ctx
+	// cancellation is observed once per visited mailbox and once per scan
+	observes := func(in ssa.Instruction) bool {
+		switch x := in.(type) {
+		case *ssa.Select:
+			for _, st := range x.States {
+				if isCtxDone(st.Chan) {
+					return true
+				}
+			}
+		case *ssa.Call:
+			if x.Call.IsInvoke() && x.Call.Method.Name() == "Err" && x.Call.Method.Pkg() != nil && x.Call.Method.Pkg().Path() == "context" {
+				return true
+			}
+		case *ssa.UnOp:
+			if x.Op == token.ARROW && isCtxDone(x.X) {
+				return true
+			}
+		}
+		return false
+	}
+	nVis := 0
+	for _, fn := range scannerFns {
+		if fn.Parent() == nil || fn.Signature.Results().Len() != 1 || fn.Signature.Params().Len() != 1 {
+			continue
+		}
+		if b, ok := fn.Signature.Results().At(0).Type().Underlying().(*types.Basic); !ok || b.Kind() != types.Bool {
+			continue
+		}
+		if _, ok := fn.Signature.Params().At(0).Type().Underlying().(*types.Slice); !ok {
+			continue
+		}
+		nVis++
+		cont := func(in ssa.Instruction) bool {
+			ret, ok := in.(*ssa.Return)
+			if !ok || len(ret.Results) != 1 {
+				return false
+			}
+			b, isC := eng.ConstBool(ret.Results[0])
+			return !(isC && !b)
+		}
+		if miss := (&eng.Search{Target: cont, Avoid: observes, Deep: true}).FromEntry(fn); miss != nil {
+			r.Bad(rule, "visitor-observes-cancel@"+shortFn(fn), p.InstrPos(miss), "the per-mailbox visitor can ask for the next mailbox (return true) without having looked at ctx.Done(): with such a configuration a scan in progress at shutdown walks and purges every remaining mailbox")
+		} else {
+			r.Ok(rule, "visitor-observes-cancel@"+shortFn(fn), p.Pos(fn.Pos()), "every path that continues the scan passes a select on ctx.Done()")
+		}
+	}
+	r.Floor(rule, "mailbox visitors in the scanner", nVis, 1)
+	eng.EachInstr(start, func(in ssa.Instruction) {
+		call, ok := in.(*ssa.Call)
+		if !ok || eng.StaticCallee(call.Common()) != scan {
+			return
+		}
+		if again := (&eng.Search{Target: func(y ssa.Instruction) bool { return y == in }, Avoid: observes, Deep: true}).After(in); again != nil {
+			r.Bad(rule, "loop-observes-cancel", p.InstrPos(in), "the run loop can start the next scan without having looked at ctx.Done()")
+		} else {
+			r.Ok(rule, "loop-observes-cancel", p.InstrPos(in), "between two scans the run loop passes a select on ctx.Done()")
+		}
+	})
 	joins := false
 	eng.EachInstr(join, func(in ssa.Instruction) {
 		if u, ok := in.(*ssa.UnOp); ok && u.Op == token.ARROW && eng.SameField(eng.LoadedField(u.X), fShut) {
